@@ -106,13 +106,7 @@ Definition proxy_label_names (exts : list labels) (drop : list str) (ms : list m
 Definition proxy_label_values (exts : list labels) (drop : list str) (ms : list matcher) (label : str) (stored : list labels) : list str :=
   merge_slices (map (fun e => tsdb_label_values e drop ms label stored) (queried ms exts)).
 
-(* label sets of ProxyStore.Series: sorted, each once (C03) *)
-Fixpoint linsert (x : labels) (l : list labels) : list labels :=
-  match l with
-  | [] => [x]
-  | y :: r => match lbl_cmp x y with Gt => y :: linsert x r | Eq => l | Lt => x :: l end
-  end.
-Definition lsort_set (l : list labels) : list labels := fold_right linsert [] l.
+(* label sets of ProxyStore.Series: sorted, each once (C03); [lsort_set] is defined in Model/C08.v *)
 Definition proxy_series_labels (exts : list labels) (drop : list str) (ms : list matcher) (stored : list labels)
   : option (list labels) :=
   match ms with
